@@ -140,6 +140,16 @@ def agent_ops(rng, nscen, client_types):
         ops += ["a upsert %s %d %s" % (label, fresh(), kt) for _ in range(4)]
         ops += ["a add %s %d cert %s" % (label, fresh(), other[0]),           # a foreign-type certificate under the label
                 "a upsert %s %d %s" % (label, fresh(), kt), "a upsert %s %d %s" % (label, fresh(), kt), "a list"]
+    # identities of key algorithms x/crypto/ssh cannot parse (PKIX-SSH, XMSS, smart-card middleware), listed
+    # before and after the keymaster certificate, also carrying the label itself: replacement must not care
+    for kt in client_types:
+        label = c.hexs("keymaster-%s-username" % kt.replace(":", ""))
+        for where in (["front"], ["back"], ["front", "back"]):
+            ops.append("a reset")
+            ops.append("a upsert %s %d %s" % (label, fresh(), kt))
+            for w in where:
+                ops.append("a addforeign %s %d %s" % (rng.choice([c.hexs("cardno:000611223344"), label]), fresh(), w))
+            ops += ["a upsert %s %d %s" % (label, fresh(), kt) for _ in range(2)]
     for _ in range(nscen):
         ops.append("a reset")
         nrsa = 0
@@ -151,6 +161,8 @@ def agent_ops(rng, nscen, client_types):
                 if nrsa > 4:
                     kt = "ed25519:256"
             ops.append("a add %s %d %s %s" % (rng.choice(comments), fresh(), kind, kt))
+            if rng.random() < 0.2:
+                ops.append("a addforeign %s %d %s" % (rng.choice(comments), fresh(), rng.choice(["front", "back"])))
         label, kt = rng.choice(comments), rng.choice(client_types)
         for _ in range(rng.randrange(1, 7)):
             r = rng.random()
@@ -303,7 +315,15 @@ def run(ctx):
         ctx.broken.append("harness lib/client/sshagent TestVerifC19 did not complete (exit %d, %d/%d lines)" % (rc, len(aimpl), len(aops)))
         return c.finish(ctx)
     # the model is indifferent to key types: it gets the ops without them
-    amops = [" ".join(o.split()[:5] if o.split()[1] == "add" else o.split()[:4]) for o in aops]
+    # and to why an identity is not a certificate: an unparseable one is, like a plain key, an entry with isCert = false
+    def mop(o):
+        f = o.split()
+        if f[1] == "addforeign":
+            return "a add %s %s plain" % (f[2], f[3])
+        return " ".join(f[:5] if f[1] == "add" else f[:4])
+    amops = [mop(o) for o in aops]
+    cov["agent_foreign_identities"] = sum(1 for o in aops if o.split()[1] == "addforeign")
+    aimpl = [" ".join(t[:-2] + ":p" if t.endswith(":f") else t for t in l.split()) for l in aimpl]
     model = c.run_driver(ctx, "model", amops)
     c.diff_streams(ctx, "withAddedKeyUpsertCertIntoAgentConnection on an in-memory agent vs KM.Client.agentUpsert", aops, aimpl, model)
     jops, jmeta = [], []
@@ -319,8 +339,8 @@ def run(ctx):
         cov["agent_upserts"] += 1
         if v != "ok":
             start = max(j for j in range(i + 1) if aops[j] == "a reset")
-            pending_violation(ctx, "agent-upsert", "upsert of a %s certificate labelled %r: agent before=[%s] after=[%s]: %s" % (
-                              (o.split() + ["ed25519:256"])[4], c.unhexs(o.split()[2]), b, a, v),
+            pending_violation(ctx, "agent-upsert", "upsert of a %s certificate labelled %r: agent before=[%s] after=[%s]: %s (ops: %s)" % (
+                              (o.split() + ["ed25519:256"])[4], c.unhexs(o.split()[2]), b, a, v, "; ".join(aops[start:i + 1])[:600]),
                               {"stream": "a", "ops": aops[start:i + 1], "judge": v})
     # ------------------------------------------------------------------ 4. thorough: the real client against the real server
     if not q:
